@@ -227,6 +227,12 @@ class ModelCompiler:
         for name in self.defined_names:
             cell_address = self.defined_names[name]
             cell_address = cell_address.replace('$', '')
+            if cell_address.startswith("'"):
+                # A sheet name that needs quoting is written 'My Sheet'!A1
+                # (quotes inside the name doubled); cells are keyed by the
+                # plain sheet name.
+                sheet, _, ref = cell_address.rpartition('!')
+                cell_address = sheet[1:-1].replace("''", "'") + '!' + ref
 
             # a cell has an address like; Sheet1!A1
             if ':' not in cell_address:
